@@ -102,6 +102,28 @@ where
         | some m => go fuel (i + 1) j ((i, m) :: acc)
         | none => none
 
+/-! ### blind signing contexts (`knox/{bbs,ps}/blind_signature_context.rs`) -/
+
+structure BlindCtx (F G : Type) where
+  commitment : G
+  challenge : F
+  proofs : List F
+
+/-- the commitment hashed by the issuer: points = generators of the messages the issuer does **not**
+know (index order) ++ `extra` (PS: the G1 generator for the blinding factor; BBS: nothing) ++
+[commitment], scalars = proofs ++ [-challenge] -/
+def blindRecommit [Add G] [Zero G] [SMul F G] [Neg F]
+    (ys : List G) (known : List Nat) (extra : List G) (ctx : BlindCtx F G) : G :=
+  msm (hiddenGens ys known ++ extra ++ [ctx.commitment]) (ctx.proofs ++ [-ctx.challenge])
+
+/-- `BlindSignatureContext::verify`: known indices in range, the response count (repair), and the
+recomputed challenge `H(recommit, commitment, nonce)` equal to the presented one (`hashOk`) -/
+def blindVerify [Add G] [Zero G] [SMul F G] [Neg F]
+    (ys : List G) (known : List Nat) (extra : List G) (ctx : BlindCtx F G) (hashOk : G → Bool) : Option Bool :=
+  if known.any (fun i => decide (ys.length ≤ i)) then none
+  else if ctx.proofs.length ≠ (hiddenGens ys known).length + extra.length then some false
+  else some (hashOk (blindRecommit ys known extra ctx))
+
 /-! ### predicate verifiers sharing a response -/
 
 /-- `CommitmentVerifier`: `-c • C + p_m • M + p_b • B` -/
